@@ -6,6 +6,16 @@ lattice of configurations / velocities, and compares the engine with an
 independent numpy reference:  M == sum_b Jp_b' m_b Jp_b + Jr_b' I_b Jr_b
 + diag(armature) + Jten' a Jten ; M symmetric positive definite; L'DL solve
 inverts M; mulM/fullM agree; qfrc_bias == rne(acc=0); rne(acc=a) == M a + bias.
+
+Spatial-tendon part.  Tendon armature a adds the kinetic energy 1/2 a (J v)^2 (XMLreference, tendon/spatial/armature), hence
+a J'J to M and -- because J depends on the configuration -- the bias force a J' (Jdot v) on top of Newton-Euler.  A fixed tendon
+has a constant J, so the family above never exercises that term.  The family is therefore extended by site-routed tendons with
+armature: path {w0-s_a-s_b, w0-s_a-<pulley divisor 1.7>-w1-s_b} over body pairs (a, b) (w0, w1 world sites, s_i the site of
+body i; thorough: every ordered pair, quick: the covering set of spatial_pairs) x Jacobian {dense, sparse} x armature source {tendon attribute, tendon attribute + actuator armature
+reflected through gear^2}, on all forests with <= N-1 bodies x the full joint menu product and on all forests with N bodies x a
+covering joint assignment.  Oracle: M == sum J'IJ + armature + a_eff J_ten'J_ten (a_eff from the documented sum), symmetric
+positive definite, mulM / solveM agree with it, and qfrc_bias == rne(acc=0) + sum_t a_eff J_t' (Jdot_t v) where Jdot_t v is the
+central difference of J_t(q (+) h v) v along the flow of the lattice velocity (own quaternion exponential), h = 1e-6.
 """
 import itertools
 
@@ -14,6 +24,7 @@ import numpy as np
 from .. import alphabet as A
 from .. import core, mj
 from ..mjutil import dense, relerr
+from . import _c05_util as U
 
 LEVEL = "exploration"
 META = dict(
@@ -23,12 +34,27 @@ META = dict(
          "x armature/tendon-armature toggles is compiled by the tree's compiler and evaluated on a configuration/velocity "
          "lattice; the joint-space inertia, its factorisation, bias forces and recursive Newton-Euler are compared with an "
          "independent dense reference built from body Jacobians. Exhaustive over the lattice: branching/sparsity-pattern "
-         "errors that only appear for some tree shapes cannot hide.",
+         "errors that only appear for some tree shapes cannot hide. A second family of site-routed (spatial) tendons with armature "
+         "(with/without pulley, dense/sparse Jacobian, armature from the tendon or reflected from an actuator) covers the "
+         "configuration-dependent tendon Jacobian: inertia term a J'J and the velocity-dependent bias a J'(Jdot v), the latter against "
+         "central differences of J v along the velocity flow.",
     note="Reference uses the engine's own Jacobians (their consistency with positions is C07) and body inertias from the "
          "compiled model; tolerance 1e-9 relative (observed noise ~1e-15).",
     design_ref="DESIGN.md §3 C06")
 
 TOL = 1e-9
+FD_H = 1e-6              # step of the central difference of J_ten v along the velocity flow
+TOL_TENBIAS = 1e-6        # observed noise of the finite-difference reference <= 2e-9 (relative, atol 1e-3)
+PULLEY_DIV = 1.7
+MIN_SEGMENT = 1e-2        # m; states in which a tendon segment is shorter are on the discontinuity of the tendon Jacobian
+TEN_ARM = 0.35            # spatial tendon armature (source "tendon")
+TEN_ARM_SPLIT = (0.15, 0.09, 1.5)   # source "actuator": tendon attribute, actuator armature, actuator gear
+WORLD_SITES = '    <site name="w0" pos="-0.3 0.2 0.4"/>\n    <site name="w1" pos="0.5 -0.3 0.6"/>\n'
+SPATIAL_VARIANTS = [(kind, jac, src) for kind in ("open", "pulley") for jac in ("dense", "sparse") for src in ("tendon", "actuator")]
+# quick tier: the armature source only scales one scalar shared by M and the bias, independent of the path and of the Jacobian
+# layout -- it is paired with the other two dimensions by a covering design instead of the full product
+SPATIAL_VARIANTS_QUICK = [(kind, jac, "tendon") for kind in ("open", "pulley") for jac in ("dense", "sparse")] + [
+    ("pulley", "dense", "actuator"), ("open", "sparse", "actuator")]
 
 
 def models(nmax, menu):
@@ -168,10 +194,173 @@ def check_model(lib, part, par, js, variant):
     m.free()
 
 
+def spatial_xml(par, js, sp):
+    a, b, kind, jac, src = sp
+    n = len(par)
+    if kind == "open":
+        path = '<site site="w0"/><site site="s%d"/>' % a + ('<site site="s%d"/>' % b if b != a else "")
+    else:
+        path = '<site site="w0"/><site site="s%d"/><pulley divisor="%g"/><site site="w1"/><site site="s%d"/>' % (a, PULLEY_DIV, b)
+    if src == "tendon":
+        sections = '<tendon><spatial name="t0" armature="%g">%s</spatial></tendon>\n' % (TEN_ARM, path)
+    else:
+        sections = ('<tendon><spatial name="t0" armature="%g">%s</spatial></tendon>\n'
+                    '<actuator><general name="a0" tendon="t0" gear="%g" armature="%g"/></actuator>\n' % (
+                        TEN_ARM_SPLIT[0], path, TEN_ARM_SPLIT[2], TEN_ARM_SPLIT[1]))
+    return A.tree_mjcf(par, list(js), axis=[i % 3 for i in range(n)], anchor=[(i + 1) % 2 for i in range(n)],
+                       frame=[1 + i % 2 for i in range(n)], geom=[A.GEOM_ORDER[i % 5] for i in range(n)],
+                       jattr=['armature="%g"' % (0.013 * (i + 1)) for i in range(n)], sections=sections,
+                       world_extra=WORLD_SITES, option=A.option_elem(jacobian=jac))
+
+
+def check_spatial(lib, part, par, js, sp):
+    """one model of the spatial-tendon part: inertia with the tendon-armature term and the velocity-dependent tendon bias"""
+    a, b, kind, jac, src = sp
+    xml = spatial_xml(par, js, sp)
+    m = lib.load_xml(xml)
+    d = lib.make_data(m)
+    mi = U.MInfo(m)
+    nv = m.nv
+    # documented effective armature: tendon attribute + sum over actuators on the tendon of armature * gear^2
+    a_eff = np.array(m.tendon_armature, float).copy()
+    if src == "actuator":
+        a_eff[0] += TEN_ARM_SPLIT[1] * TEN_ARM_SPLIT[2] ** 2
+    pat = dense(m.M_rownnz, m.M_rowadr, m.M_colind, np.ones(m.nC), nv, nv) > 0
+    pat = pat | pat.T
+    vmix = A.qvel_lattice(nv, units=False)[-1]
+    tag = "spatial=(%d,%d,%s,%s,%s)" % sp
+    part.add("spatial_models")
+    part.add("spatial_models_pulley_dense", int(kind == "pulley" and jac == "dense"))
+
+    def tenJ():
+        return dense(m.ten_J_rownnz, m.ten_J_rowadr, m.ten_J_colind, d.ten_J, m.ntendon, nv)
+    # site ids of the path segments, read back from the compiled wrap arrays (mjWRAP_SITE = 3; a pulley separates branches)
+    wt, wo = [int(x) for x in m.wrap_type], [int(x) for x in m.wrap_objid]
+    segs = [(wo[i], wo[i + 1]) for i in range(len(wt) - 1) if wt[i] == 3 and wt[i + 1] == 3]
+    for qi, q in enumerate(A.qpos_lattice(m, limit=12)):
+        d.qpos[:] = q
+        d.qvel[:] = 0
+        lib.mj_forward(m, d)
+        sx = np.array(d.site_xpos).reshape(-1, 3)
+        if min(float(np.linalg.norm(sx[i] - sx[j])) for i, j in segs) < MIN_SEGMENT:
+            # a segment of zero length has no direction: the tendon Jacobian is discontinuous there (two bodies of the lattice
+            # share a frame, so their sites coincide in some configurations)
+            part.add("boundary_excluded")
+            continue
+        # Jdot v by central differences of J(q (+) h v) v along the flow of v
+        jv = []
+        for sgn in (1, -1):
+            d.qpos[:] = U.integrate_pos(mi, q, vmix, sgn * FD_H)
+            d.qvel[:] = vmix
+            lib.mj_forward(m, d)
+            jv.append(tenJ() @ vmix)
+        jdotv = (jv[0] - jv[1]) / (2 * FD_H)
+        for vi, v in enumerate((np.zeros(nv), vmix)):
+            d.qpos[:] = q
+            d.qvel[:] = v
+            lib.mj_forward(m, d)
+            Jt = tenJ()
+            moving = bool(vi) and float(np.max(np.abs(Jt.T @ (a_eff * jdotv)))) > 1e-3
+            part.count(1, key=(par, js, sp, qi) if moving else None,
+                       sample={"parents": par, "joints": js, "spatial": sp, "qpos": q, "qvel": v} if qi == 1 and vi == 1 else None)
+            part.add("spatial_states")
+            part.add("spatial_states_nonzero_tendon_bias", int(moving))
+            ctx = "parents=%s joints=%s %s state=(%d,%d)" % (par, js, tag, qi, vi)
+            rp = {"xml": xml, "qpos": q, "qvel": v}
+
+            def bad(name, err):
+                part.violation("%s parents=%s joints=%s arm=1 ten=1 %s" % (name, par, js, tag), "%s: rel err %.3g at %s" % (name, err, ctx), rp)
+            if vi == 0:
+                # inertia (depends on the configuration only; checked once per configuration)
+                M = np.zeros((nv, nv))
+                lib.mj_fullM(m, d, M)
+                Mref = np.diag(np.array(m.dof_armature, float))
+                for bb in range(1, m.nbody):
+                    jp = np.zeros((3, nv))
+                    jr = np.zeros((3, nv))
+                    lib.mj_jacBodyCom(m, d, jp, jr, bb)
+                    R = d.ximat[bb].reshape(3, 3)
+                    Mref += m.body_mass[bb] * jp.T @ jp + jr.T @ (R @ np.diag(m.body_inertia[bb]) @ R.T) @ jr
+                Mten = Jt.T @ np.diag(a_eff) @ Jt
+                e = relerr(M, M.T)
+                if e > TOL:
+                    bad("M not symmetric", e)
+                e = relerr(M, Mref + Mten)
+                if e > TOL:
+                    if relerr(M, Mref + np.where(pat, Mten, 0.0)) <= TOL:
+                        part.violation("tendon armature: cross terms between dofs that are not ancestor-related are dropped from M",
+                                       "M lacks armature*J_ten'J_ten entries outside its ancestor sparsity pattern (rel err %.3g) at %s" % (e, ctx), rp)
+                    else:
+                        bad("M != sum J'IJ + armature", e)
+                try:
+                    np.linalg.cholesky(M)
+                except np.linalg.LinAlgError:
+                    bad("M not positive definite", float("inf"))
+                w = np.ascontiguousarray(vmix)
+                r = np.zeros(nv)
+                lib.mj_mulM(m, d, r, w)
+                e = relerr(r, M @ w)
+                if e > TOL:
+                    bad("mulM != fullM", e)
+                x = np.zeros(nv)
+                lib.mj_solveM(m, d, x, np.ascontiguousarray(r), 1)
+                e = relerr(x, w, atol=1.0)
+                if e > 1e-7:
+                    bad("solveM(mulM(e_i)) != e_i", e)
+            # bias force: Newton-Euler at zero acceleration + tendon-armature term a J' (Jdot v)
+            bias = np.array(d.qfrc_bias)
+            r0 = np.zeros(nv)
+            lib.mj_rne(m, d, 0, r0)
+            ref = r0 + (Jt.T @ (a_eff * jdotv) if vi else 0.0)
+            e = relerr(bias, ref, atol=1e-3)
+            if e > TOL_TENBIAS:
+                bad("qfrc_bias != rne(acc=0) + armature*J_ten'*(Jdot_ten v)", e)
+    d.free()
+    m.free()
+
+
+def spatial_pairs(n, kind, full):
+    """body pairs (a, b) of a path.  full: every ordered pair.  Otherwise a covering set: the two branches of a pulley path
+    contribute independent terms (one per segment), so every body appears once in each branch: (i, i+1 mod n); the open path
+    w0-s_a-s_b has the segment s_a-s_b, so every unordered pair a < b, plus a == b (path w0-s_a)."""
+    if full:
+        return [(a, b) for a in range(n) for b in range(n)]
+    if kind == "pulley":
+        return [(i, (i + 1) % n) for i in range(n)]
+    return [(a, b) for a in range(n) for b in range(a, n)]
+
+
+def spatial_items(nfull, ncover, menu, variants, full_pairs):
+    """(par, js, (a, b, kind, jac, src)): forests with <= nfull bodies x full joint menu product, forests with exactly ncover bodies
+    x covering joint assignment (body i takes menu entry (k+i) mod |menu_i|, k = 0..|menu|-1); body pairs (a, b) from spatial_pairs
+    x every path/Jacobian/armature-source variant (for a == b the open path is w0-s_a)."""
+    fam = list(models(nfull, menu))
+    mm = menu or list(A.JOINTS)
+    for par in A.forests(ncover):
+        doms = [A.joint_menu(p == -1, menu) for p in par]
+        seen = set()
+        for k in range(len(mm)):
+            js = tuple(dm[(k + i) % len(dm)] for i, dm in enumerate(doms))
+            if js not in seen and not all(j == "none" for j in js):
+                seen.add(js)
+                fam.append((par, js))
+    for par, js in fam:
+        for kind, jac, src in variants:
+            for a, b in spatial_pairs(len(par), kind, full_pairs):
+                yield par, js, (a, b, kind, jac, src)
+
+
 def _chunk(chunk):
     lib = mj.load()
     part = core.Part()
     for par, js, variant in chunk:
+        if len(variant) == 5:
+            try:
+                check_spatial(lib, part, par, js, variant)
+            except mj.MjError as e:
+                part.violation("engine error parents=%s joints=%s spatial=%s" % (par, js, variant), "unexpected mju_error/compile error: %s" % e,
+                               {"parents": par, "joints": js, "spatial": variant})
+            continue
         try:
             check_model(lib, part, par, js, variant)
         except mj.MjError as e:
@@ -188,15 +377,39 @@ def run(ctx):
     for par, js in models(nmax, menu):
         for variant in ((0, 0), (1, 0), (1, 1), (1, 0, 1), (0, 0, 2)):
             items.append((par, js, variant))
-    core.pmap(ctx, _chunk, items, nchunks=64)
+    svar = ctx.q(SPATIAL_VARIANTS_QUICK, SPATIAL_VARIANTS)
+    sitems = list(spatial_items(nmax - 1, nmax, menu, svar, ctx.thorough))
+    # interleave so that every chunk gets its share of both parts
+    step = max(1, len(items) // max(1, len(sitems)))
+    merged = []
+    si = iter(sitems)
+    for i, it in enumerate(items):
+        merged.append(it)
+        if i % step == 0:
+            merged.extend(x for x in [next(si, None)] if x is not None)
+    merged.extend(si)
+    core.pmap(ctx, _chunk, merged, nchunks=64)
     ctx.extra["models"] = len(items)
+    ctx.extra["spatial_tendon_models"] = len(sitems)
     ctx.rule = ("all rooted ordered forests with <=%d bodies x full product of the joint menu %s per body (free only on roots) x "
                 "{no armature, per-body distinct joint armature, joint+tendon armature, 'simple' layout (inertial frame = body "
                 "frame, joints at the origin, axis-aligned: body_simple / dof_simplenum fast paths) with and without armature}; per model a covering lattice of <=12 configurations "
                 "(scalars {0,.37,-1.3}, quaternions {id, 90deg, (.5,.5,.5,.5), pi-1e-9}) x {zero, mixed} velocity. "
-                "non-trivial = (model,state) with a branching tree and nv>=3, or nv>=4" % (nmax, menu or list(A.JOINTS)))
+                "non-trivial = (model,state) with a branching tree and nv>=3, or nv>=4. "
+                "spatial-tendon part: all forests with <=%d bodies x full menu product + all forests with exactly %d bodies x covering joint "
+                "assignment (body i takes menu entry (k+i) mod |menu|), each x body pairs (a,b) [%s] x site-routed tendon with armature "
+                "{w0-s_a-s_b, w0-s_a-pulley(%g)-w1-s_b} x jacobian {dense,sparse} x armature source {tendon, tendon+actuator*gear^2} (variants %s), "
+                "joint armature on; <=12 configurations x {zero, mixed} velocity; inertia with a_eff*J_ten'J_ten and "
+                "qfrc_bias == rne(acc=0) + a_eff*J_ten'*(Jdot_ten v) with Jdot_ten v by central differences (h=%g) of J_ten v along the velocity flow; "
+                "non-trivial there = state whose reference tendon bias exceeds 1e-3; states with a tendon segment shorter than %g m are excluded "
+                "(boundary_excluded: direction of a zero-length segment undefined)" % (
+                    nmax, menu or list(A.JOINTS), nmax - 1, nmax,
+                    "every ordered pair" if ctx.thorough else "covering: pulley path (i, i+1 mod n), open path a <= b",
+                    PULLEY_DIV, svar, FD_H, MIN_SEGMENT))
     ctx.assumptions = ["reference built from mj_jacBodyCom and compiled body_mass/body_inertia (C07/C35 cover those)",
-                       "tolerance 1e-9 relative; 1e-7 for solveM round trip"]
+                       "tolerance 1e-9 relative; 1e-7 for solveM round trip; 1e-6 (atol 1e-3) for the finite-difference tendon bias (noise <= 2e-9)",
+                       "tendon Jacobian ten_J is the engine's (its consistency with ten_length is C07's subject); geom-wrapped tendons with armature "
+                       "are rejected by mj_tendonDot (mjERROR 'geom wrapping not supported') and are not part of the family"]
 
 
 def replay(ctx, path):
@@ -204,6 +417,14 @@ def replay(ctx, path):
     import json as _json
     import re as _re
     rec = _json.load(open(path))
+    ms = _re.search(r"parents=(\(.*?\)) joints=(\(.*?\)) .*?spatial=\((\d+),(\d+),(\w+),(\w+),(\w+)\)", rec["key"] + " " + rec["what"])
+    if ms:
+        part = core.Part()
+        check_spatial(mj.load(), part, eval(ms.group(1)), eval(ms.group(2)),
+                      (int(ms.group(3)), int(ms.group(4)), ms.group(5), ms.group(6), ms.group(7)))
+        for v in part["violations"]:
+            print("VIOLATION", v["key"], "|", v["what"])
+        return 1 if part["violations"] else 0
     mm = _re.search(r"parents=(\(.*?\)) joints=(\(.*?\)) arm(?:ature)?=(\d) ten(?:don)?=(\d)(?: simple=(\d))?", rec["key"] + " " + rec["what"])
     if not mm:
         print("cannot parse the case from", path)
